@@ -21,6 +21,7 @@ RULE = ("for every composition of length <= Lc (quick 10, thorough 12) the delta
         "exhaustive search (own enumerator), its reversal, inversion and 3 random arrangements; every charge pattern "
         "of length <= Lp (quick 9, thorough 11) with a random spelling; random class sequences (quick <=120, thorough "
         "<=400 residues); hill-climbed arrangements for compositions with >= 18 neutrals; anchors. distinct = distinct charge pattern; non-trivial = deltaMax != 0 (kappa defined)")
+RULE += ("; added after the mutation rounds: ordered groups of compositions whose decimal digit strings coincide analysed one after another; long almost uncharged chains; the first cases of every shard are judged again at its end")
 EXHAUSTIVE = {"quick": False, "thorough": False}
 EXHAUSTIVE_NOTE = {"quick": "all patterns of length <= 9; maximisers of all compositions of length <= 10",
                    "thorough": "all patterns of length <= 11; maximisers of all compositions of length <= 12"}
